@@ -313,7 +313,14 @@ pub fn check_pair(c: &Pair) -> Outcome {
     let body = &a_src[st.prefix().len() + st.delim().len()..a_src.len() - st.delim().len()];
     // the raw twin: same quotes, same body text
     let twin_style = Style { raw: !st.raw, upper: c.twin_upper, ..st.clone() };
-    let b_src = format!("{}{}{}{}", twin_style.prefix(), twin_style.delim(), body, twin_style.delim());
+    // (spelled through the renderer, which refuses bodies the twin's token rule cannot hold: a quote character or a line
+    // break in a one-line raw literal would end the token early and turn the rest into other tokens or a comment)
+    let twin = Case { style: twin_style.clone(), pieces: body.chars().map(|ch| Piece { value: ch as u32, how: How::Verbatim }).collect(), hex_upper: false };
+    let Some(b_src) = render(&twin) else { return Outcome::Skip("twin-style-cannot-spell-this-body") };
+    if b_src.contains("//") || a_src.contains("//") {
+        // inside a literal `//` is text; kept out of the pair programs so that a mis-lexed literal cannot comment out the rest
+        return Outcome::Skip("body-contains-comment-marker");
+    }
     let alone = |src: &str| -> Option<V> {
         match sut::run_src(src, &[]) {
             Ran::Done(R::Val(v)) => Some(v),
